@@ -7,6 +7,9 @@ n = int(sys.argv[2]) if len(sys.argv)>2 else 20
 sd = int(sys.argv[3]) if len(sys.argv)>3 else 1
 ctx = Ctx()
 cnt = {"n":0,"fail":0,"exc":0}
+hist = {}
+HK = set(os.environ.get("HK","").split(","))
+QUIET = bool(os.environ.get("QUIET"))
 t0=time.time()
 @seed(sd)
 @settings(max_examples=n, database=None, deadline=None, suppress_health_check=list(HealthCheck), phases=[Phase.generate])
@@ -17,6 +20,8 @@ def t(case):
         f = prop.check(case, ctx)
     except Exception as e:
         cnt["exc"]+=1
+        if os.environ.get("DUMP"):
+            open(os.environ["DUMP"],"a").write(json.dumps({"case":case,"exc":str(e)[:200]})+"\n")
         print("EXC", type(e).__name__, str(e)[:300])
         tb = traceback.extract_tb(e.__traceback__)
         print("   at", [(os.path.basename(fr.filename), fr.lineno, fr.name) for fr in tb[-4:]])
@@ -24,7 +29,14 @@ def t(case):
         return
     if f:
         cnt["fail"]+=1
+        for x in f:
+            key = x.subcheck + "|" + ",".join("%s=%s"%(k,v) for k,v in sorted(x.features.items()) if k in HK)
+            hist[key] = hist.get(key,0)+1
+        if os.environ.get("DUMP"):
+            open(os.environ["DUMP"],"a").write(json.dumps({"case":case,"fails":[x.to_json() for x in f]})+"\n")
+        if QUIET: return
         print("FAIL", f[:3], [json.dumps(__import__('vlib.core',fromlist=['x'])._jsonable(x.detail))[:300] for x in f[:2]])
         if cnt["fail"]<=2: print(json.dumps(prop.abbreviate(case))[:1200])
 t()
+for k,v in sorted(hist.items()): print("  ",v,k)
 print(cnt, ctx.counters, "%.1fs"%(time.time()-t0))
